@@ -94,6 +94,19 @@ def cases(tier, rng, schema, feats):
         for cap in (0, 1, 2, 3, 4, 5, 6, 7, 8, 9, 10, 16):
             if len(prior) <= cap:
                 add(cap, prior, "version", (b"U2F_V2",))
+    # large buffers that are ALMOST FULL on entry: the response (or one of its parts) no longer fits and failure must be reported,
+    # never a panic - for every large capacity of the menu, the free room ranging over every part boundary of the response
+    big = [(b"U2F_V2",)], [(1, 7, b"\x30" * 70)], [(5, b"\x04" + b"\x11" * 64, b"\x22" * 64, b"\x33" * 300, b"\x44" * 70)]
+    for kind, args in (("version", big[0]), ("authenticate", big[1]), ("register", big[2])):
+        a = args[0]
+        sums = [0]
+        for part in parts_of(kind, a):
+            sums.append(sums[-1] + len(part))
+        rooms = sorted({max(0, x + d) for x in sums for d in (-1, 0, 1)})
+        for cap in (1024, 2048, 3072, 7609, 70000):
+            for room in rooms:
+                if room <= cap:
+                    add(cap, b"\xee" * (cap - room), kind, a)
     # a very large caller buffer, pre-filled beyond 2^16 bytes: the response still fits and must be appended (a limit on the WHOLE
     # buffer instead of on the appended bytes would report failure)
     for plen in (65100, 65500, 65529, 65530, 65531, 65536, 68000):
